@@ -11,10 +11,11 @@ import (
 )
 
 type Value struct {
-	T   *Term
-	LV  *LValue
-	Tup []Value
-	Clo *Closure
+	T     *Term
+	LV    *LValue
+	Tup   []Value
+	Clo   *Closure
+	Local string // non-escaping local variable: its fields live in private heap arrays with this prefix
 }
 
 type Closure struct {
@@ -77,7 +78,32 @@ func baseHeap(key, sort string) *Term {
 		panic(fmt.Sprintf("heap key %s with two sorts %s / %s", key, old, sort))
 	}
 	heapSorts[key] = sort
-	return Const(key+"!0", sort)
+	t := Const(key+"!0", sort)
+	registerHeapConst(t, key, Const("alloc!0", "Int"))
+	return t
+}
+
+// heapConsts records, for every heap array constant introduced (entry heaps and havocked
+// heaps), its key and the allocation watermark at its introduction: all references stored in
+// objects allocated below that watermark are themselves below it.
+type heapConstInfo struct {
+	key   string
+	bound *Term
+}
+
+var heapConsts = map[*Term]heapConstInfo{}
+
+func registerHeapConst(t *Term, key string, bound *Term) {
+	if _, ok := heapConsts[t]; !ok {
+		heapConsts[t] = heapConstInfo{key, bound}
+	}
+}
+
+// freshHeap introduces a havocked heap array.
+func freshHeap(st *State, key, why string) *Term {
+	t := Fresh(key+"_"+why, heapSorts[key])
+	registerHeapConst(t, key, st.alloc)
+	return t
 }
 
 func (s *State) H(key, sort string) *Term {
@@ -217,6 +243,10 @@ func (x *Exec) fieldLV(ptr Value, structT types.Type, i int) *LValue {
 		return &lv
 	}
 	key, sort := fieldHeapKey(structT, i)
+	if ptr.Local != "" {
+		key = ptr.Local + "_" + st.Field(i).Name()
+		heapValType[key] = ft
+	}
 	heapSorts[key] = sort
 	return &LValue{Key: key, Sort: sort, Ref: ptr.T, Typ: ft}
 }
@@ -228,12 +258,16 @@ func (x *Exec) derefLV(ptr Value, elemT types.Type) *LValue {
 	}
 	if _, ok := elemT.Underlying().(*types.Array); ok {
 		at := elemT.Underlying().(*types.Array)
-		key, sort := elemHeapKey(sortOf(at.Elem()))
+		key, sort := elemHeapKey(at.Elem())
 		heapSorts[key] = sort
 		// whole row
 		return &LValue{Key: key, Sort: sort, Ref: ptr.T, Typ: elemT}
 	}
-	key, sort := cellHeapKey(sortOf(elemT))
+	key, sort := cellHeapKey(elemT)
+	if ptr.Local != "" {
+		key = ptr.Local
+		heapValType[key] = elemT
+	}
 	heapSorts[key] = sort
 	return &LValue{Key: key, Sort: sort, Ref: ptr.T, Typ: elemT}
 }
@@ -296,7 +330,7 @@ func sLen(s *Term) *Term { return Acc(s, 2) }
 func sCap(s *Term) *Term { return Acc(s, 3) }
 
 func (x *Exec) elemLV(st *State, slice *Term, idx *Term, elemT types.Type) *LValue {
-	key, sort := elemHeapKey(sortOf(elemT))
+	key, sort := elemHeapKey(elemT)
 	heapSorts[key] = sort
 	return &LValue{Key: key, Sort: sort, Ref: sArr(slice), Idx: ix(sOff(slice), idx), Typ: elemT}
 }
